@@ -10,7 +10,7 @@
      c09_never_again       a retired connection (failed, expired, quit, cleared) is never returned by checkout, and stays
                            retired along every history of PooledClient calls (Proofs/PoolReuse.v) *)
 From Coq Require Import ZArith List Bool Lia.
-From PM Require Import Lib.Py Model.World Model.Readers Model.Client Model.Pooled Proofs.PoolProof Proofs.PoolReuse.
+From PM Require Import Lib.Py Model.World Model.Readers Model.Client Model.Pooled Proofs.PoolProof Proofs.PoolReuse Proofs.C10Proof Gen.Handlers.
 Import ListNotations.
 Open Scope Z_scope.
 
@@ -22,6 +22,17 @@ Theorem c09_used_zero : forall P peer c pc o p w, PInv p -> 1 <= pc_max pc ->
   PInv p' \/ (exists e, r = Raise e /\ exn_isa e (pc_h_pool pc) = false).
 Proof. exact PoolProof.pooled_op_spec. Qed.
 Print Assumptions c09_used_zero.
+
+(* ... and with the handler class read from pool.py on this run (`except BaseException` in get_and_release: Gen/Handlers.v) nothing
+   escapes it: the count is back to zero after EVERY call, whatever it raised - an ordinary error or an interruption *)
+Theorem c09_used_zero_src : forall P peer c pc o p w, pc_h_pool pc = src_h_pool -> PInv p -> 1 <= pc_max pc ->
+  let '(r, p', w') := pooled_op P peer c pc o p w in PInv p'.
+Proof.
+  intros P peer c pc o p w Hh Hi Hm. pose proof (PoolProof.pooled_op_spec P peer c pc o p w Hi Hm) as H.
+  destruct (pooled_op P peer c pc o p w) as [[r p'] w']. destruct H as [H|(e & _ & He)]; [exact H|].
+  rewrite Hh in He. change src_h_pool with BaseException in He. rewrite C10Proof.isa_base in He. discriminate.
+Qed.
+Print Assumptions c09_used_zero_src.
 
 (* a client whose call escaped with a caught exception is discarded: it is closed (after_remove) and ends
    up in neither the used nor the free list, so it is never handed out again *)
